@@ -208,8 +208,10 @@ def run_history(ctx, drv, cmds, family="recipe.history", require_weight=False):
 
 # --------------------------------------------------------------------------- alphabets / generators
 
-SCOPES = ["a;", "a/b;", "model/fc1;", "x;y;", ""]
-REGEXES = [".*", "a", "^a", "b;$", "fc", "zzz", "a|x", ";"]
+SCOPES = ["a;", "a/b;", "model/fc1;", "x;y;", "", "jit(main)/fc1/dot;", "xa+b;"]
+# the last two are regular expressions whose LITERAL text occurs in a scope that the expression itself does not match ('jit(main)/fc1'
+# matches 'jitmain/fc1', 'a+b' matches 'ab'): "found in the scope" means re.search, never substring containment
+REGEXES = [".*", "a", "^a", "b;$", "fc", "zzz", "a|x", ";", "jit(main)/fc1", "a+b"]
 
 CFG_ALPHABET = [
     ("default", cdesc()),
